@@ -1,8 +1,8 @@
 """C06 -- ar members are exact, isolated, file-like views of the archive."""
 import ast
 
-from .. import cfg
-from ..core import AnalysisError, norm, walk_no_nested, mangle
+from .. import cfg, normalize
+from ..core import AnalysisError, Func, norm, set_parents, walk_no_nested, mangle
 from ..flow import Aff, Facts, cmp_to_constraints
 
 META = {
@@ -109,6 +109,14 @@ def add_test(facts, test, pol, tr):
     return facts
 
 
+def nfunc(f):
+    """the function with its small helpers inlined and plain aliases (fp = self.__fp) substituted"""
+    node, _ = normalize.inline_helpers(f)
+    node, _ = normalize.propagate_aliases(node, only_simple=True)
+    set_parents(node)
+    return Func(f.module, node, f.qual, f.cls)
+
+
 def fp_calls(fnode):
     out = []
     for c in ast.walk(fnode):
@@ -122,6 +130,7 @@ def r1_bounded_reads(rep, src):
     n_sites = 0
     for meth in [f for q, f in sorted(m.funcs.items()) if q.startswith('ArMember.') and '.' not in q[len('ArMember.'):]]:
         rep.saw_func(meth)
+        meth = nfunc(meth)
         # iteration over the raw file object
         for node in ast.walk(meth.node):
             if isinstance(node, (ast.For, ast.comprehension)) and norm(node.iter) == 'self.__fp':
@@ -175,7 +184,7 @@ def r1_bounded_reads(rep, src):
 def r2_position_discipline(rep, src):
     m = src.mod(M)
     for mname in ('read', 'readline'):
-        f = src.func('%s:ArMember.%s' % (M, mname))
+        f = nfunc(src.func('%s:ArMember.%s' % (M, mname)))
         g = cfg.CFG(f.node)
         calls = [c for c in fp_calls(f.node) if c.func.attr in DATA_CALLS]
         seeks = [g.node_for(c) for c in fp_calls(f.node) if c.func.attr == 'seek' and [norm(a) for a in c.args] == ['self.__cur']]
@@ -261,7 +270,54 @@ def r3_header_table(rep, src):
         raise AnalysisError('%s: header read not found' % f.site)
     roles = {}
     local_role = {}
+
+    def struct_layout(fmt):
+        """[(lo, hi)] of a struct format made of fixed-width byte fields (Ns) and pad bytes (Nx)"""
+        import re as _re
+        if not isinstance(fmt, (str, bytes)):
+            return None
+        if isinstance(fmt, bytes):
+            fmt = fmt.decode('ascii')
+        fmt = fmt.replace(' ', '')
+        if fmt[:1] in '@=<>!':
+            fmt = fmt[1:]
+        out, pos = [], 0
+        for cnt, code in _re.findall(r'(\d*)([a-zA-Z?])', fmt):
+            n = int(cnt) if cnt else 1
+            if code == 's':
+                out.append((pos, pos + n))
+                pos += n
+            elif code == 'x':
+                pos += n
+            else:
+                return None
+        if ''.join('%s%s' % (c, k) for c, k in _re.findall(r'(\d*)([a-zA-Z?])', fmt)) != fmt:
+            return None
+        return out
+
+    def unpack_layout(call):
+        """layout of `struct.unpack(fmt, buf)` / `S.unpack(buf)` / `S.unpack_from(buf)` applied to the header buffer"""
+        if not (isinstance(call, ast.Call) and isinstance(call.func, ast.Attribute) and call.func.attr in ('unpack', 'unpack_from')):
+            return None
+        base = call.func.value
+        if norm(base) == 'struct' and len(call.args) == 2 and norm(call.args[1]) == bufname:
+            return struct_layout(mod_fold(mod, call.args[0]))
+        if call.args and norm(call.args[0]) == bufname:
+            node = mod.const_nodes.get('', {}).get(norm(base)) if isinstance(base, ast.Name) else None
+            if node is None and isinstance(base, ast.Attribute) and isinstance(base.value, ast.Name):
+                node, _c = mod.class_const_node(f.cls, base.attr) if base.value.id in ('cls', 'self', f.cls) else (None, None)
+            if isinstance(node, ast.Call) and norm(node.func) in ('struct.Struct', 'Struct') and node.args:
+                return struct_layout(mod_fold(mod, node.args[0]))
+        return None
+
     for st in sorted([x for x in walk_no_nested(f.node) if isinstance(x, ast.stmt)], key=lambda x: x.lineno):
+        if isinstance(st, ast.Assign) and isinstance(st.targets[0], (ast.Tuple, ast.List)):
+            lay = unpack_layout(st.value)
+            if lay is not None and len(lay) == len(st.targets[0].elts):
+                for t, (lo, hi) in zip(st.targets[0].elts, lay):
+                    if isinstance(t, ast.Name):
+                        local_role[t.id] = (lo, hi, False)
+                continue
         subs = [s for s in ast.walk(st) if isinstance(s, ast.Subscript) and norm(s.value) == bufname and isinstance(s.slice, ast.Slice)] \
             if isinstance(st, (ast.Assign, ast.If, ast.Compare)) else []
         if isinstance(st, ast.Assign) and subs:
@@ -272,15 +328,25 @@ def r3_header_table(rep, src):
                 roles[tgt.attr.lstrip('_')] = (lo, hi, numeric)
             elif isinstance(tgt, ast.Name):
                 local_role[tgt.id] = (lo, hi, numeric)
-        if isinstance(st, ast.Assign) and isinstance(st.targets[0], ast.Attribute) and not subs:
+        if isinstance(st, ast.Assign) and isinstance(st.targets[0], (ast.Attribute, ast.Name)) and not subs:
+            numeric = isinstance(st.value, ast.Call) and norm(st.value.func) == 'int'
             for nm in [x.id for x in ast.walk(st.value) if isinstance(x, ast.Name)]:
                 if nm in local_role:
-                    roles[st.targets[0].attr.lstrip('_')] = local_role[nm]
+                    lo, hi, num0 = local_role[nm]
+                    if isinstance(st.targets[0], ast.Attribute):
+                        roles[st.targets[0].attr.lstrip('_')] = (lo, hi, num0 or numeric)
+                    else:
+                        local_role[st.targets[0].id] = (lo, hi, num0 or numeric)
         if isinstance(st, ast.If):
             for cmpn in [c for c in ast.walk(st.test) if isinstance(c, ast.Compare)]:
+                if 'FILE_MAGIC' not in norm(cmpn) and not any(mod_fold(mod, x) == b'`\n' for x in [cmpn.left] + cmpn.comparators):
+                    continue
                 ss = [s for s in ast.walk(cmpn) if isinstance(s, ast.Subscript) and norm(s.value) == bufname and isinstance(s.slice, ast.Slice)]
-                if ss and 'FILE_MAGIC' in norm(cmpn):
+                if ss:
                     roles['magic'] = (mod_fold(mod, ss[0].slice.lower), mod_fold(mod, ss[0].slice.upper), False)
+                for nm in [x.id for x in ast.walk(cmpn) if isinstance(x, ast.Name)]:
+                    if nm in local_role:
+                        roles['magic'] = local_role[nm]
     for role, (lo, hi) in AR5.items():
         got = roles.get(role)
         if got is None:
@@ -329,18 +395,21 @@ def mod_fold(mod, e):
 def r4_padding(rep, src):
     f = src.func('%s:ArFile.__collect_members' % M)
     rep.saw_func(f)
-    loops = [s for s in f.node.body if isinstance(s, ast.While)]
+    loops = [l for l in normalize.sentinel_loops(f.node) if 'from_file' in norm(l.producer.func)]
     if len(loops) != 1:
-        raise AnalysisError('%s: expected one member loop' % f.site)
+        raise AnalysisError('%s: expected one member loop (a producer loop over ArMember.from_file)' % f.site)
     loop = loops[0]
+    var = loop.var
     fpn = f.params()[1]
-
+    env = {}
     def ev(e, p):
         """value of an integer expression as (coefficient of size, constant) given size ≡ p (mod 2)"""
         if isinstance(e, ast.Constant) and isinstance(e.value, int):
             return (0, e.value)
-        if isinstance(e, ast.Attribute) and e.attr == 'size':
+        if isinstance(e, ast.Attribute) and e.attr == 'size' and norm(e.value) == var:
             return (1, 0)
+        if isinstance(e, ast.Name) and e.id in env:
+            return ev(env[e.id], p)
         if isinstance(e, ast.BinOp):
             if isinstance(e.op, ast.Mod) and isinstance(e.right, ast.Constant) and e.right.value == 2:
                 l = ev(e.left, p)
@@ -379,6 +448,8 @@ def r4_padding(rep, src):
     def run(stmts, p):
         adv = (0, 0)
         for st in stmts:
+            if isinstance(st, ast.Assign) and len(st.targets) == 1 and isinstance(st.targets[0], ast.Name):
+                env[st.targets[0].id] = st.value
             if isinstance(st, ast.If):
                 c = cond(st.test, p)
                 if c is None:
@@ -409,18 +480,17 @@ def r4_padding(rep, src):
     app = [t for t in tops if t.startswith('self.__members.append(')]
     idx = [s for s in loop.body if isinstance(s, ast.Assign) and isinstance(s.targets[0], ast.Subscript)
            and norm(s.targets[0].value) == 'self.__members_dict']
-    if len(app) == 1 and app[0] == 'self.__members.append(newmember)':
+    if len(app) == 1 and app[0] == 'self.__members.append(%s)' % var:
         rep.ok('C06.R6', f.site, 'members listed in archive order', 'unconditional append in the walk loop')
     else:
         rep.fail('C06.R6', f.site, 'members listed in archive order', 'members are not appended unconditionally in walk order', where=f.where)
-    if len(idx) == 1 and norm(idx[0].targets[0].slice) == 'newmember.name' and norm(idx[0].value) == 'newmember':
+    if len(idx) == 1 and norm(idx[0].targets[0].slice) == var + '.name' and norm(idx[0].value) == var:
         rep.ok('C06.R6', f.site, 'name lookup: last member wins', 'unconditional self.__members_dict[name] = member')
     else:
         rep.fail('C06.R6', f.site, 'name lookup: last member wins', 'the name index is not overwritten by later members of the same name', where=f.where)
-    brk = [s for s in loop.body if isinstance(s, ast.If) and norm(s.test) in ('not newmember', 'newmember is None') and any(isinstance(b, ast.Break) for b in s.body)]
-    first_is_from_file = isinstance(loop.body[0], ast.Assign) and 'ArMember.from_file(' + fpn in norm(loop.body[0].value).replace('\n', '')
-    if brk and first_is_from_file and loop.body.index(brk[0]) < [i for i, t in enumerate(tops) if t.startswith('self.__members.append(')][0]:
-        rep.ok('C06.R6', f.site, 'walk ends at end of archive', 'from_file → None → break before listing', nontrivial=False)
+    # the producer is ArMember.from_file on the archive's file object; the loop ends (before listing) at its sentinel
+    if norm(loop.producer.func) == 'ArMember.from_file' and loop.producer.args and norm(loop.producer.args[0]) == fpn:
+        rep.ok('C06.R6', f.site, 'walk ends at end of archive', 'from_file → %s ends the loop before listing' % loop.sentinel, nontrivial=False)
     else:
         rep.fail('C06.R6', f.site, 'walk ends at end of archive', 'the loop does not stop (before listing) when no further header exists', where=f.where)
     # global header check
